@@ -203,7 +203,14 @@ class _Container(_Val):
             return
         c = comps[0]
         arr, lo, hi = c["src"]
-        rarr, rlo, rhi = lib.seq_view(it, ret)
+        rv = lib.seq_view(it, ret)
+        if rv is None:
+            # not one of the containers the validator builds (e.g. the caller's own value handed back)
+            st.check("C04-P2:the-result-is-an-immutable-container-that-is-a-new-object",
+                     z3.And(V.is_ref(ret), V.class_of(V.addr(ret)) == it.ct.id(self.result_class), ret != self.value,
+                            V.addr(ret) >= 1_000_000))
+            return
+        rarr, rlo, rhi = rv
         i = st.fresh("i", I)
         st.assume(z3.And(0 <= i, i < hi - lo))
         st.instantiate_at(st.simp(lo + i))
@@ -362,7 +369,12 @@ class TupleFixedV(_Val):
         st.check("P1:accepted-values-are-sequences(not-str/bytes)", seq_conf(it, self.value))
         arr, lo, hi = lib.generic_seq_view(it, self.value)
         st.check("P1:accepted-values-have-exactly-the-annotated-length", hi - lo == self.n)
-        rarr, rlo, rhi = lib.seq_view(it, ret)
+        rv = lib.seq_view(it, ret)
+        if rv is None:
+            st.check("C04-P2:the-result-is-a-new-tuple", z3.And(V.is_tuple(ret) if hasattr(V, "is_tuple") else z3.BoolVal(False),
+                                                               ret != self.value))
+            return
+        rarr, rlo, rhi = rv
         i = st.fresh("i", I)
         st.assume(z3.And(0 <= i, i < self.n))
         st.instantiate_at(st.simp(lo + i))
